@@ -253,17 +253,18 @@ impl<T> OneShotShared<T> {
       // EMPTY or WRITING
       // If empty and all senders are gone, it's disconnected.
       if current_state == STATE_EMPTY && self.sender_count.load(Ordering::Acquire) == 0 {
-        // Attempt to transition to CLOSED if not already done by last sender drop
-        self
-          .state
-          .compare_exchange(
-            STATE_EMPTY,
-            STATE_CLOSED,
-            Ordering::Relaxed,
-            Ordering::Relaxed,
-          )
-          .ok();
-        Err(TryRecvError::Disconnected)
+        // All senders are gone. One of them may have sent its value and left between the two
+        // loads above, so only report Disconnected if the state really is still EMPTY (or was
+        // already CLOSED by the last sender); otherwise look at the new state.
+        match self.state.compare_exchange(
+          STATE_EMPTY,
+          STATE_CLOSED,
+          Ordering::AcqRel,
+          Ordering::Acquire,
+        ) {
+          Ok(_) | Err(STATE_CLOSED) => Err(TryRecvError::Disconnected),
+          Err(_) => self.try_recv(),
+        }
       } else {
         Err(TryRecvError::Empty) // Not ready yet, or senders still active / writing
       }
@@ -294,16 +295,16 @@ impl<T> OneShotShared<T> {
           }
           // Check again if all senders dropped AFTER deciding it's Empty
           if current_state == STATE_EMPTY && self.sender_count.load(Ordering::Acquire) == 0 {
-            self
-              .state
-              .compare_exchange(
-                STATE_EMPTY,
-                STATE_CLOSED,
-                Ordering::Relaxed,
-                Ordering::Relaxed,
-              )
-              .ok();
-            return Poll::Ready(Err(RecvError::Disconnected));
+            // A sender may have sent and left after `current_state` was read: use the CAS result.
+            match self.state.compare_exchange(
+              STATE_EMPTY,
+              STATE_CLOSED,
+              Ordering::AcqRel,
+              Ordering::Acquire,
+            ) {
+              Ok(_) | Err(STATE_CLOSED) => return Poll::Ready(Err(RecvError::Disconnected)),
+              Err(_) => continue,
+            }
           }
 
           self.receiver_waker.register(cx.waker());
